@@ -136,4 +136,364 @@ theorem finToNat_some (m e : Int) (v : Nat) :
         · obtain ⟨h1, h2⟩ := (div_exact_iff _ _ _ hd).mpr h
           rw [if_pos h1, h2, if_pos hlt]
 
+/-! ## the text scanner -/
+
+theorem isDigit_iff (c : Nat) : isDigit c = true ↔ Digit c := by
+  simp only [isDigit, Digit, Bool.and_eq_true, decide_eq_true_eq]
+
+/-! ### scanner steps -/
+
+theorem pn_cons (c : Nat) (t n : Bytes) : prepareNumber (c :: t) n =
+    if c = 32 then prepareNumber t n
+    else if !n.isEmpty && c = 95 then prepareNumber t n
+    else if isDigit c then prepareNumber t (c :: n)
+    else match t with
+      | c1 :: t' =>
+        if !n.isEmpty && c = 0xC2 && c1 = 0xA0 then prepareNumber t' n
+        else (n.reverse, trimRightSp (c :: t))
+      | [] => (n.reverse, trimRightSp (c :: t)) := by
+  rw [prepareNumber.eq_def]
+  rfl
+
+theorem pn_spaces (k : Nat) (s n : Bytes) :
+    prepareNumber (List.replicate k 32 ++ s) n = prepareNumber s n := by
+  induction k with
+  | zero => rfl
+  | succ k ih =>
+    rw [List.replicate_succ, List.cons_append, pn_cons, if_pos rfl, ih]
+
+theorem pn_digit (d : Nat) (s n : Bytes) (hd : Digit d) :
+    prepareNumber (d :: s) n = prepareNumber s (d :: n) := by
+  have h1 : d ≠ 32 := by unfold Digit at hd; omega
+  have h2 : d ≠ 95 := by unfold Digit at hd; omega
+  rw [pn_cons, if_neg h1]
+  simp only [h2, decide_false, Bool.and_false, Bool.false_eq_true, if_false]
+  rw [if_pos ((isDigit_iff d).mpr hd)]
+
+theorem pn_sep (x : Sep) (s n : Bytes) (hn : n ≠ []) :
+    prepareNumber (x.bytes ++ s) n = prepareNumber s n := by
+  have hne : n.isEmpty = false := by cases n with
+    | nil => exact absurd rfl hn
+    | cons _ _ => rfl
+  cases x with
+  | sp => simp only [Sep.bytes, List.cons_append, List.nil_append]; rw [pn_cons, if_pos rfl]
+  | us =>
+    simp only [Sep.bytes, List.cons_append, List.nil_append]
+    rw [pn_cons, if_neg (by decide)]
+    simp only [hne, Bool.not_false, Bool.true_and, decide_true, if_true]
+  | nbsp =>
+    simp only [Sep.bytes, List.cons_append, List.nil_append]
+    rw [pn_cons, if_neg (by decide)]
+    simp only [hne, Bool.not_false, Bool.true_and]
+    rw [if_neg (by decide), if_neg (by decide)]
+    simp only [decide_true, Bool.and_self, if_true]
+
+theorem pn_seps (xs : List Sep) (s n : Bytes) (hn : n ≠ []) :
+    prepareNumber (xs.flatMap Sep.bytes ++ s) n = prepareNumber s n := by
+  induction xs with
+  | nil => rfl
+  | cons x xs ih => rw [List.flatMap_cons, List.append_assoc, pn_sep x _ n hn, ih]
+
+theorem pn_body (ds : List (Nat × List Sep)) (s n : Bytes) (hd : ∀ p ∈ ds, Digit p.1) :
+    prepareNumber (body ds ++ s) n = prepareNumber s ((digitsOf ds).reverse ++ n) := by
+  induction ds generalizing n with
+  | nil => rfl
+  | cons p ds ih =>
+    have hp := hd p (List.mem_cons_self)
+    have hds : ∀ q ∈ ds, Digit q.1 := fun q hq => hd q (List.mem_cons_of_mem _ hq)
+    show prepareNumber ((p.1 :: p.2.flatMap Sep.bytes ++ body ds) ++ s) n = _
+    rw [List.append_assoc, List.cons_append, pn_digit _ _ _ hp, pn_seps _ _ _ (by simp), ih _ hds]
+    simp [digitsOf]
+
+/-! ### trimming -/
+
+theorem dropWhile_replicate (k : Nat) (s : Bytes) :
+    (List.replicate k 32 ++ s).dropWhile (· == 32) = s.dropWhile (· == 32) := by
+  induction k with
+  | zero => rfl
+  | succ k ih => rw [List.replicate_succ, List.cons_append, List.dropWhile_cons]; simp [ih]
+
+theorem trimRightSp_append (u : Bytes) (k : Nat) (hl : u.getLast? ≠ some 32) :
+    trimRightSp (u ++ List.replicate k 32) = u := by
+  unfold trimRightSp
+  rw [List.reverse_append, List.reverse_replicate, dropWhile_replicate]
+  have : u.reverse.dropWhile (· == 32) = u.reverse := by
+    rw [List.getLast?_eq_head?_reverse] at hl
+    cases hr : u.reverse with
+    | nil => rfl
+    | cons c t =>
+      rw [hr] at hl
+      have hc : c ≠ 32 := by intro h; subst h; exact hl rfl
+      rw [List.dropWhile_cons]
+      simp [hc]
+  rw [this, List.reverse_reverse]
+
+theorem pn_unit (u : Bytes) (k : Nat) (n : Bytes) (hu : UnitOk u) :
+    prepareNumber (u ++ List.replicate k 32) n = (n.reverse, u) := by
+  obtain ⟨h32, h95, hdig, hnb, hlast⟩ := hu
+  cases u with
+  | nil =>
+    have := pn_spaces k [] n
+    rw [List.append_nil] at this
+    rw [List.nil_append, this]; rfl
+  | cons c t =>
+    have hc32 : c ≠ 32 := by intro h; subst h; exact h32 rfl
+    have hc95 : c ≠ 95 := by intro h; subst h; exact h95 rfl
+    have hcd : isDigit c = false := by
+      cases hd : isDigit c
+      · rfl
+      · exact absurd ((isDigit_iff c).mp hd) (hdig c rfl)
+    have htrim := trimRightSp_append (c :: t) k hlast
+    rw [List.cons_append] at htrim ⊢
+    rw [pn_cons, if_neg hc32]
+    simp only [hc95, decide_false, Bool.and_false, Bool.false_eq_true, if_false, hcd]
+    split
+    · rename_i c1 t' heq
+      rw [if_neg, htrim]
+      intro hcond
+      simp only [Bool.and_eq_true, decide_eq_true_eq] at hcond
+      obtain ⟨⟨_, hc⟩, hc1⟩ := hcond
+      subst hc; subst hc1
+      cases t with
+      | nil =>
+        cases k with
+        | zero => simp at heq
+        | succ k => rw [List.nil_append, List.replicate_succ] at heq; injection heq with h _; omega
+      | cons a t2 =>
+        rw [List.cons_append] at heq
+        injection heq with h _
+        subst h
+        exact hnb (by simp)
+    · rw [htrim]
+
+theorem pn_render (lead : Nat) (ds : List (Nat × List Sep)) (unit : Bytes) (trail : Nat)
+    (h : WellFormed ds unit) :
+    prepareNumber (render lead ds unit trail) [] = (digitsOf ds, unit) := by
+  obtain ⟨_, hd, hu⟩ := h
+  unfold render
+  rw [List.append_assoc, List.append_assoc, pn_spaces, pn_body _ _ _ hd, pn_unit _ _ _ hu]
+  simp
+
+
+theorem digitsOf_ne_nil (ds : List (Nat × List Sep)) (h : ds ≠ []) : digitsOf ds ≠ [] := by
+  cases ds with
+  | nil => exact absurd rfl h
+  | cons p ds => simp [digitsOf]
+
+theorem unmarshalText_of_pn (du : Bool) (s num unit : Bytes) (h : prepareNumber s [] = (num, unit))
+    (hnum : num ≠ []) :
+    unmarshalText du s =
+      if val num ≥ 2 ^ 64 then .err .numRange
+      else if unit = [] then .ok (val num)
+      else if du then .err .unitDisabled
+      else newSize (val num) unit := by
+  unfold unmarshalText
+  rw [h, two64_eq]
+  simp only
+  have h1 : num.isEmpty = false := by cases num with
+    | nil => exact absurd rfl hnum
+    | cons _ _ => rfl
+  rw [h1]
+  simp only [Bool.false_eq_true, if_false]
+  cases unit with
+  | nil => simp
+  | cons c t => simp
+
+theorem unmarshalText_invalid (du : Bool) (s : Bytes) (h : (prepareNumber s []).1 = []) :
+    unmarshalText du s = .err .invalid := by
+  unfold unmarshalText
+  simp only
+  rw [h]
+  rfl
+
+/-! ### soundness of the scanner -/
+
+theorem dropWhile_spec (l : Bytes) :
+    ∃ k, l = List.replicate k 32 ++ l.dropWhile (· == 32) ∧ (l.dropWhile (· == 32)).head? ≠ some 32 := by
+  induction l with
+  | nil => exact ⟨0, rfl, by simp⟩
+  | cons c t ih =>
+    by_cases hc : c = 32
+    · subst hc
+      obtain ⟨k, h1, h2⟩ := ih
+      refine ⟨k + 1, ?_, ?_⟩
+      · rw [List.dropWhile_cons]
+        simp only [beq_self_eq_true, if_true]
+        rw [List.replicate_succ, List.cons_append, ← h1]
+      · rw [List.dropWhile_cons]; simpa using h2
+    · refine ⟨0, ?_, ?_⟩
+      · rw [List.dropWhile_cons]; simp [hc]
+      · rw [List.dropWhile_cons]; simp [hc]
+
+theorem trimRightSp_spec (s : Bytes) :
+    ∃ k, s = trimRightSp s ++ List.replicate k 32 ∧ (trimRightSp s).getLast? ≠ some 32 := by
+  obtain ⟨k, h1, h2⟩ := dropWhile_spec s.reverse
+  refine ⟨k, ?_, ?_⟩
+  · unfold trimRightSp
+    have := congrArg List.reverse h1
+    rw [List.reverse_reverse, List.reverse_append, List.reverse_replicate] at this
+    exact this
+  · unfold trimRightSp
+    rw [List.getLast?_reverse]
+    exact h2
+
+/-- where the scanner stops, an admissible unit (plus trailing spaces) begins -/
+theorem unit_stop (c : Nat) (t : Bytes) (h32 : c ≠ 32) (h95 : c ≠ 95) (hd : isDigit c = false)
+    (hnb : ∀ t', t = 0xA0 :: t' → c ≠ 0xC2) :
+    UnitOk (trimRightSp (c :: t)) ∧ ∃ k, c :: t = trimRightSp (c :: t) ++ List.replicate k 32 := by
+  obtain ⟨k, h1, h2⟩ := trimRightSp_spec (c :: t)
+  refine ⟨?_, k, h1⟩
+  generalize trimRightSp (c :: t) = u at h1 h2
+  cases u with
+  | nil =>
+    cases k with
+    | zero => simp at h1
+    | succ k => rw [List.nil_append, List.replicate_succ] at h1; injection h1 with h _; omega
+  | cons c' t2 =>
+    rw [List.cons_append] at h1
+    injection h1 with hc ht
+    subst hc
+    refine ⟨by simpa using h32, by simpa using h95, ?_, ?_, h2⟩
+    · intro c0 h0 hdig
+      simp only [List.head?_cons, Option.some.injEq] at h0
+      subst h0
+      rw [(isDigit_iff c).mpr hdig] at hd
+      exact absurd hd (by decide)
+    · intro hp
+      cases t2 with
+      | nil => simp at hp
+      | cons a t3 =>
+        simp only [List.cons_prefix_cons, List.nil_prefix, and_true] at hp
+        obtain ⟨hc, ha⟩ := hp
+        rw [List.cons_append] at ht
+        exact hnb _ (by rw [ht, ← ha]) hc.symm
+
+theorem pn_sound_acc (s n : Bytes) (hn : n ≠ []) :
+    ∃ (xs : List Sep) (ds : List (Nat × List Sep)) (trail : Nat), s = xs.flatMap Sep.bytes ++ body ds ++ (prepareNumber s n).2 ++ List.replicate trail 32 ∧
+      (∀ p ∈ ds, Digit p.1) ∧ UnitOk (prepareNumber s n).2 ∧
+      (prepareNumber s n).1 = n.reverse ++ digitsOf ds := by
+  induction s, n using prepareNumber.induct with
+  | case1 n =>
+    refine ⟨[], [], 0, ?_, by simp, ?_, ?_⟩
+    · simp [prepareNumber, body]
+    · simp [prepareNumber, UnitOk]
+    · simp [prepareNumber, digitsOf]
+  | case2 t n ih =>
+    obtain ⟨xs, ds, trail, h1, h2, h3, h4⟩ := ih hn
+    rw [pn_cons, if_pos rfl]
+    refine ⟨.sp :: xs, ds, trail, ?_, h2, h3, h4⟩
+    rw [List.flatMap_cons]
+    simp only [Sep.bytes, List.cons_append, List.nil_append]
+    rw [← h1]
+  | case3 c t n h32 h95 ih =>
+    obtain ⟨xs, ds, trail, h1, h2, h3, h4⟩ := ih hn
+    rw [pn_cons, if_neg h32, if_pos h95]
+    have hc : c = 95 := by simp only [Bool.and_eq_true, decide_eq_true_eq] at h95; exact h95.2
+    subst hc
+    refine ⟨.us :: xs, ds, trail, ?_, h2, h3, h4⟩
+    rw [List.flatMap_cons]
+    simp only [Sep.bytes, List.cons_append, List.nil_append]
+    rw [← h1]
+  | case4 c t n h32 h95 hd ih =>
+    obtain ⟨xs, ds, trail, h1, h2, h3, h4⟩ := ih (by simp)
+    rw [pn_cons, if_neg h32, if_neg h95, if_pos hd]
+    refine ⟨[], (c, xs) :: ds, trail, ?_, ?_, h3, ?_⟩
+    · show c :: t = [] ++ ((c :: xs.flatMap Sep.bytes) ++ body ds) ++ _ ++ _
+      rw [List.nil_append, List.cons_append, List.cons_append, List.cons_append, ← h1]
+    · intro p hp
+      rcases List.mem_cons.mp hp with rfl | hp
+      · exact (isDigit_iff _).mp hd
+      · exact h2 p hp
+    · rw [h4]; simp [digitsOf]
+  | case5 c n h32 h95 hd c1 t' hcond ih =>
+    obtain ⟨xs, ds, trail, h1, h2, h3, h4⟩ := ih hn
+    rw [pn_cons, if_neg h32, if_neg h95, if_neg hd]
+    simp only
+    rw [if_pos hcond]
+    simp only [Bool.and_eq_true, decide_eq_true_eq] at hcond
+    obtain ⟨⟨_, hc⟩, hc1⟩ := hcond
+    subst hc; subst hc1
+    refine ⟨.nbsp :: xs, ds, trail, ?_, h2, h3, h4⟩
+    rw [List.flatMap_cons]
+    simp only [Sep.bytes, List.cons_append, List.nil_append]
+    rw [← h1]
+  | case6 c n h32 h95 hd c1 t' hcond =>
+    rw [pn_cons, if_neg h32, if_neg h95, if_neg hd]
+    simp only
+    rw [if_neg hcond]
+    have hne : n.isEmpty = false := by cases n with
+      | nil => exact absurd rfl hn
+      | cons _ _ => rfl
+    have h95' : c ≠ 95 := by
+      intro h; apply h95; simp [hne, h]
+    have hd' : isDigit c = false := by simpa using hd
+    obtain ⟨hu, k, hk⟩ := unit_stop c (c1 :: t') h32 h95' hd' (by
+      intro t2 ht hc
+      injection ht with h1 _
+      apply hcond; simp [hne, hc, h1])
+    exact ⟨[], [], k, by simpa [body] using hk, by simp, hu, by simp [digitsOf]⟩
+  | case7 c n h32 h95 hd =>
+    rw [pn_cons, if_neg h32, if_neg h95, if_neg hd]
+    simp only
+    have hne : n.isEmpty = false := by cases n with
+      | nil => exact absurd rfl hn
+      | cons _ _ => rfl
+    have h95' : c ≠ 95 := by
+      intro h; apply h95; simp [hne, h]
+    have hd' : isDigit c = false := by simpa using hd
+    obtain ⟨hu, k, hk⟩ := unit_stop c [] h32 h95' hd' (by intro t2 ht; simp at ht)
+    exact ⟨[], [], k, by simpa [body] using hk, by simp, hu, by simp [digitsOf]⟩
+
+theorem pn_sound (s : Bytes) (h : (prepareNumber s []).1 ≠ []) :
+    ∃ lead ds trail, s = render lead ds (prepareNumber s []).2 trail ∧
+      WellFormed ds (prepareNumber s []).2 ∧ (prepareNumber s []).1 = digitsOf ds := by
+  induction s with
+  | nil => exact absurd rfl h
+  | cons c t ih =>
+    rw [pn_cons] at h ⊢
+    by_cases h32 : c = 32
+    · subst h32
+      rw [if_pos rfl] at h ⊢
+      obtain ⟨lead, ds, trail, h1, h2, h3⟩ := ih h
+      refine ⟨lead + 1, ds, trail, ?_, h2, h3⟩
+      unfold render at h1 ⊢
+      rw [List.replicate_succ, List.cons_append, List.cons_append, List.cons_append, ← h1]
+    · rw [if_neg h32] at h ⊢
+      simp only [List.isEmpty_nil, Bool.not_true, Bool.false_and, Bool.false_eq_true, if_false] at h ⊢
+      by_cases hd : isDigit c = true
+      · rw [if_pos hd] at h ⊢
+        obtain ⟨xs, ds, trail, h1, h2, h3, h4⟩ := pn_sound_acc t [c] (by simp)
+        refine ⟨0, (c, xs) :: ds, trail, ?_, ⟨by simp, ?_, h3⟩, ?_⟩
+        · show c :: t = [] ++ ((c :: xs.flatMap Sep.bytes) ++ body ds) ++ _ ++ _
+          rw [List.nil_append, List.cons_append, List.cons_append, List.cons_append, ← h1]
+        · intro p hp
+          rcases List.mem_cons.mp hp with rfl | hp
+          · exact (isDigit_iff _).mp hd
+          · exact h2 p hp
+        · rw [h4]; simp [digitsOf]
+      · rw [if_neg hd] at h
+        exfalso
+        split at h <;> simp at h
+
+/-- no digit before anything else: nothing is scanned -/
+theorem pn_nodigit (s : Bytes)
+    (h : ∀ c, (s.dropWhile (· == 32)).head? = some c → ¬ Digit c) : (prepareNumber s []).1 = [] := by
+  induction s with
+  | nil => rfl
+  | cons c t ih =>
+    rw [pn_cons]
+    by_cases h32 : c = 32
+    · subst h32
+      rw [if_pos rfl]
+      apply ih
+      simpa [List.dropWhile_cons] using h
+    · rw [if_neg h32]
+      simp only [List.isEmpty_nil, Bool.not_true, Bool.false_and, Bool.false_eq_true, if_false]
+      have hd : ¬ isDigit c = true := by
+        intro hd
+        apply h c _ ((isDigit_iff c).mp hd)
+        rw [List.dropWhile_cons]; simp [h32]
+      rw [if_neg hd]
+      split <;> rfl
+
 end U.Size
